@@ -108,15 +108,15 @@ Definition queue_shape_ok (sh : gov_shape) : bool :=
 
 (* ------------------------------------------------------------------ message execution, as a function of the shape *)
 (* run the messages one after the other on one state; stop at the first failure *)
-Fixpoint exec_prefix (s : state) (ms : list msg) : state * bool :=
+Fixpoint exec_prefix (e : xenv) (s : state) (ms : list msg) : state * bool :=
   match ms with
   | [] => (s, true)
-  | m :: r => match exec_one s m with Some s' => exec_prefix s' r | None => (s, false) end
+  | m :: r => match exec_one e s m with Some s' => exec_prefix e s' r | None => (s, false) end
   end.
 
 (* what the `case passes:` block leaves behind and which status it sets *)
-Definition exec_outcome_sh (sh : gov_shape) (s1 : state) (ms : list msg) : state * status :=
-  let '(sp, ok) := exec_prefix s1 ms in
+Definition exec_outcome_sh (sh : gov_shape) (e : xenv) (s1 : state) (ms : list msg) : state * status :=
+  let '(sp, ok) := exec_prefix e s1 ms in
   if ok then (sp, SPassed)
   else
     (* effects of the successful prefix survive if they were not made on one branch opened before the
